@@ -10,6 +10,9 @@ def run(rep, fb, tier):
     jsonrules.rule_json_clones(rep, fb)
     jsonrules.rule_json_balanced(rep, fb)
     jsonrules.rule_json_parse_errors(rep, fb)
+    jsonrules.rule_json_writer_result(rep, fb)
+    jsonrules.rule_json_flag(rep, fb)
+    jsonrules.rule_json_substitution(rep, fb)
     builder.rule_builder_table(rep, fb)
     builder.rule_arraybuilder_update(rep, fb)
     forward.rule_same_name(rep, fb, select=lambda f: f["name"] in ("tojson_part", "tojson", "tojson_string", "tojson_boolean", "tojson_integer", "tojson_real", "tojson_complex") or f["file"].endswith("io/json.cpp"), floor=30, name="FORWARD.same-name:json")
